@@ -53,6 +53,9 @@ type Case struct {
 	// Both: a plain AND a cached reporter are configured; conservation is judged over what the two
 	// received together (the property does not say which of them is handed a delta)
 	Both bool `json:"both,omitempty"`
+	// San: the root has a sanitizer (alphanumerics and '_'); counters are named "c-<i>" (delivered as
+	// "c_<i>") and every increment obtains its counter from the scope again, in the raw spelling
+	San bool `json:"san,omitempty"`
 }
 
 var deltaPool = []int64{0, 1, 1, 1, 2, 3, -1, -2, 1 << 31, -(1 << 31), 9223372036854775807, -9223372036854775808, 1000}
@@ -63,6 +66,7 @@ func gen(t *rapid.T) Case {
 	c.Caps = rapid.SampledFrom([]int{0, 0, 0, 1, 2, 3}).Draw(t, "caps")
 	c.Extreme = rapid.IntRange(0, 3).Draw(t, "extreme") == 0
 	c.Both = rapid.IntRange(0, 5).Draw(t, "both") == 0
+	c.San = rapid.IntRange(0, 4).Draw(t, "san") == 0
 	if rapid.IntRange(0, 9).Draw(t, "filler?") == 0 {
 		c.Filler = rapid.IntRange(14, 24).Draw(t, "filler")
 	}
@@ -137,6 +141,10 @@ func run(c Case) (pbt.Outcome, error) {
 	} else {
 		opts.Reporter = &rec.Stats{L: log, Caps: rec.CapsOf(c.Caps)}
 	}
+	if c.San {
+		vc := tally.ValidCharacters{Ranges: tally.AlphanumericRange, Characters: []rune{'_', '.'}}
+		opts.SanitizeOptions = &tally.SanitizeOptions{NameCharacters: vc, KeyCharacters: vc, ValueCharacters: vc, ReplacementCharacter: '_'}
+	}
 	root, _ := tally.VerifNewRootScope(opts, 0, c.Shards)
 	scopes := []tally.Scope{root}
 	for i := 1; i <= c.NSub; i++ {
@@ -151,9 +159,14 @@ func run(c Case) (pbt.Outcome, error) {
 	counters := make([]tally.Counter, len(c.Counters))
 	cacct := make([]*acct, len(c.Counters))
 	cname := make([]string, len(c.Counters))
+	craw := make([]string, len(c.Counters))
 	for i, sc := range c.Counters {
 		cname[i] = name(sc, fmt.Sprintf("c%d", i))
-		counters[i] = scopes[sc].Counter(fmt.Sprintf("c%d", i))
+		craw[i] = fmt.Sprintf("c%d", i)
+		if c.San {
+			cname[i], craw[i] = name(sc, fmt.Sprintf("c_%d", i)), fmt.Sprintf("c-%d", i)
+		}
+		counters[i] = scopes[sc].Counter(craw[i])
 		cacct[i] = &acct{closable: sc != 0}
 	}
 	hists := make([]tally.Histogram, len(c.Hists))
@@ -220,6 +233,12 @@ func run(c Case) (pbt.Outcome, error) {
 					closedBefore := closedScope[c.Counters[op.C]].Load()
 					if a.closable && (op.D <= 0 || op.D > 1000000) {
 						op.D = 1 // bounds oracle of closable scopes needs small positive deltas
+					}
+					if c.San {
+						// asked for again by its raw name: the same counter, under its one sanitized name
+						if again := scopes[c.Counters[op.C]].Counter(craw[op.C]); again != counters[op.C] && !closedScope[c.Counters[op.C]].Load() {
+							errs.Addf("Counter(%q) asked for again returned a different object", craw[op.C])
+						}
 					}
 					counters[op.C].Inc(op.D)
 					if cur := a.sum.Load(); op.D < 0 || cur+op.D < cur || cur < 0 {
